@@ -164,6 +164,16 @@ class BufSeq:
             return _Method(lambda it_, v: self.append(it_, v))
         raise Unsupported(f'list method {name} on symbolic list')
 
+    def binop_(self, it, op, other, node):
+        import ast as _ast
+        if isinstance(op, _ast.Add) and isinstance(other, (list, BufSeq)):
+            out = self.copy()
+            items = other if isinstance(other, list) else other.iterate(it, node)
+            for v in items:
+                out.append(it, v)
+            return out
+        raise Unsupported('operation on a symbolic list')
+
     def reduce_(self, it, fn, init, node):
         """functools.reduce(fn, self, init): supported when fn(x, y) == x + len(y) (checked symbolically)"""
         if init is None:
